@@ -102,7 +102,11 @@ def _build(t, binary, sep, root=True):
     from bigtree.node.binarynode import BinaryNode
     from bigtree.node.node import Node
 
-    extra = {k: dict(v) for k, v in (t[2] if len(t) > 2 else {}).items()}
+    sty = t[2] if len(t) > 2 else {}
+    extra = dict(sty.get("at", {}))
+    for k in ("ns", "es"):
+        if k in sty:
+            extra[k] = dict(sty[k])
     if binary:
         kids = [None if k is None else _build(k, True, sep, False) for k in t[1]]
         while len(kids) < 2:
@@ -148,43 +152,92 @@ def _hstyle(st):
     return constants.BaseHPrintStyle(*st["v"])
 
 
-_FLOW = re.compile(r'^(\d+(?:-\d+)*)(?:\("(.*)"\))? --> (\d+(?:-\d+)*)\("(.*)"\)$', re.S)
+_REF = r'\d+(?:-\d+)*'
+_SHAPE = r'[\(\[\{>/\\]+"([^"]*)"[\)\]\}/\\]+'
+_FLOW = re.compile(rf'^({_REF})(?:{_SHAPE})?(?::::class[\d-]+)? (\S+?)(?:\|([^|]*)\|)? ({_REF}){_SHAPE}(?::::class[\d-]+)?$',
+                   re.S)
 
 
-def run_impl(prop, case):
+def _snapshot(roots):
+    """structure, classes and public attributes of every node reachable from the given roots"""
+    out = []
+    for r in roots:
+        nodes = []
+
+        def walk(n):
+            nodes.append(n)
+            for c in n.children:
+                if c is not None:
+                    walk(c)
+        walk(r.root)
+        idx = {id(n): i for i, n in enumerate(nodes)}
+        for n in nodes:
+            out.append((type(n).__name__, n.node_name, n.sep, None if n.parent is None else idx[id(n.parent)],
+                        [None if c is None else idx[id(c)] for c in n.children],
+                        repr(n.describe(exclude_prefix="_"))))
+    return out
+
+
+def _lines_of(text):
+    return text[:-1].split("\n") if text.endswith("\n") else text.split("\n")
+
+
+def _observe(case, root, start, more):
     from bigtree.tree import export
 
-    root = _build(case["tree"], case["binary"], case["sep"])
-    start = _locate(root, case["start"])
     kind = case["kind"]
-    if kind in ("v", "h"):
+    kw = {}
+    if kind in ("v", "h", "mermaid"):
         if case["start_mode"] == "path":
-            target, kw = root, {"node_name_or_path": start.path_name}
+            # tree_to_mermaid searches its clone, and clone_tree does not carry the separator over
+            path = "/" + "/".join(n.node_name for n in start.node_path) if kind == "mermaid" else start.path_name
+            target, kw = root, {"node_name_or_path": path}
         else:
-            target, kw = start, {}
-        kw["max_depth"] = case["max_depth"]
+            target = start
+        if case["max_depth"] or case.get("explicit_defaults"):
+            kw["max_depth"] = case["max_depth"]
     if kind == "v":
         style = _vstyle(case["style"])
         try:
             out = [[p, f, n.node_name] for p, f, n in export.yield_tree(target, style=style, **kw)]
         except Exception:
-            return {"out": None, "printed": []}
+            return {"out": None, "printed": None}
+        po = dict(case.get("po") or {})
         buf = io.StringIO()
-        export.print_tree(target, style=style, file=buf, **kw)
-        text = buf.getvalue()
-        printed = text[:-1].split("\n") if text.endswith("\n") else text.split("\n")
+        try:
+            export.print_tree(target, style=style, file=buf, **kw, **po)
+        except ValueError:
+            return {"out": out, "printed": None}
+        printed = _lines_of(buf.getvalue())
+        if target is start:
+            buf2 = io.StringIO()
+            start.show(style=style, file=buf2, **kw, **po)           # Node.show = print_tree(self, ...)
+            if buf2.getvalue() != buf.getvalue():
+                raise AssertionError("Node.show() and print_tree() print different text")
         return {"out": out, "printed": printed}
     if kind == "h":
         style = _hstyle(case["style"])
+        hkw = dict(kw)
+        if not case["inter"] or case.get("explicit_defaults"):
+            hkw["intermediate_node_name"] = case["inter"]
         try:
-            out = list(export.hyield_tree(target, intermediate_node_name=case["inter"], style=style, **kw))
+            out = list(export.hyield_tree(target, style=style, **hkw))
         except Exception:
             return {"out": None}
+        buf = io.StringIO()
+        export.hprint_tree(target, style=style, file=buf, **hkw)
+        if buf.getvalue() != "\n".join(out) + "\n":
+            raise AssertionError("hprint_tree() does not print the rows of hyield_tree()")
+        if target is start:
+            buf2 = io.StringIO()
+            start.hshow(style=style, file=buf2, **hkw)
+            if buf2.getvalue() != buf.getvalue():
+                raise AssertionError("Node.hshow() and hprint_tree() print different text")
         return {"out": out}
     if kind == "dot":
         o = case.get("dot") or {}
         kw = {}
-        for key in ("node_colour", "node_shape", "edge_colour"):
+        for key in ("node_colour", "node_shape", "edge_colour", "rankdir", "bg_colour", "directed"):
             if o.get(key) is not None:
                 kw[key] = o[key]
         for key, attr in (("node_attr", "ns"), ("edge_attr", "es")):
@@ -192,7 +245,9 @@ def run_impl(prop, case):
                 kw[key] = attr
             elif o.get(key) == "callable":
                 kw[key] = (lambda a: (lambda nd: dict(nd.get_attr(a) or {})))(attr)
-        g = export.tree_to_dot(start, **kw)
+        g = export.tree_to_dot([root] + more if more else start, **kw)
+        if g.get_type() != ("graph" if o.get("directed") is False else "digraph"):
+            raise AssertionError("graph type does not follow `directed`")
         nodes = sorted(g.get_nodes(), key=lambda x: x.get_sequence())
         edges = sorted(g.get_edges(), key=lambda x: x.get_sequence())
 
@@ -202,23 +257,79 @@ def run_impl(prop, case):
                 "edges": [[str(e.get_source()), str(e.get_destination())] for e in edges],
                 "vattrs": [items(x) for x in nodes], "eattrs": [items(e) for e in edges]}
     if kind == "mermaid":
-        text = export.tree_to_mermaid(start)
+        o = case.get("mm") or {}
+        mkw = dict(kw)
+        for key in ("title", "rankdir", "line_shape", "node_colour", "node_border_colour", "node_border_width",
+                    "node_shape", "edge_arrow"):
+            if o.get(key) is not None:
+                mkw[key] = o[key]
+        for key, attr in (("node_shape_attr", "shape"), ("edge_arrow_attr", "arrow"), ("node_attr", "sty")):
+            default = {"shape": o.get("node_shape") or "rounded_edge", "arrow": o.get("edge_arrow") or "normal",
+                       "sty": ""}[attr]
+            if o.get(key) == "name":
+                mkw[key] = attr
+            elif o.get(key) == "callable":
+                mkw[key] = (lambda a, d: (lambda nd: nd.get_attr(a) or d))(attr, default)
+        if o.get("edge_label"):
+            mkw["edge_label"] = "lbl"
+        text = export.tree_to_mermaid(target, **mkw)
         lines = text.split("\n")
-        a = lines.index("flowchart TB")
-        b = max(i for i, l in enumerate(lines) if l.startswith("classDef default"))
+        a = lines.index("flowchart " + (o.get("rankdir") or "TB"))
+        b = min(i for i, l in enumerate(lines) if i > a and l.startswith("classDef default"))
         flow_lines = [l for l in lines[a + 1:b] if l != ""]
         flows = []
         for l in flow_lines:
             m = _FLOW.match(l)
             if not m:
                 raise ValueError("flow line not understood: " + l)
-            flows.append([m.group(1), m.group(2), m.group(3), m.group(4)])
+            flows.append([m.group(1), m.group(2), m.group(5), m.group(6), m.group(4)])
         return {"lines": flow_lines, "flows": flows}
     raise ValueError(kind)
 
 
+def run_impl(prop, case):
+    root = _build(case["tree"], case["binary"], case["sep"])
+    start = _locate(root, case["start"])
+    more = [_build(t, False, case["sep"]) for t in case.get("more", [])]
+    before = _snapshot([root] + more)
+    obs = _observe(case, root, start, more)
+    if _snapshot([root] + more) != before:
+        raise AssertionError("the call changed its input tree (structure, class or attributes of some node)")
+    again = _observe(case, root, start, more)
+    if again != obs:
+        raise AssertionError("the same call on the same tree gave a different result the second time")
+    if _snapshot([root] + more) != before:
+        raise AssertionError("the second call changed its input tree")
+    return obs
+
+
 # ---------------------------------------------------------------------------------------------
 # Coq literals
+
+
+def _cval(v):
+    if v is None:
+        return "VNone"
+    if isinstance(v, bool):
+        return f"VBool {cbool(v)}"
+    if isinstance(v, int):
+        return f"VInt ({v})%Z"
+    return f"VStr {cstr(v)}"
+
+
+def _cpo(po):
+    if po is None:
+        return "None"
+    return ("(Some (PO " + cbool(po.get("all_attrs", False)) + " " + clist(cstr(a) for a in po.get("attr_list", []))
+            + " " + cbool(po.get("attr_omit_null", False)) + " "
+            + clist(cstr(b) for b in po.get("attr_bracket", ["[", "]"])) + "))")
+
+
+def _cmopts(o):
+    o = o or {}
+    return (f"(MO {cstr(o.get('node_shape') or 'rounded_edge')} {cbool(o.get('node_shape_attr'))} "
+            f"{cstr(o.get('edge_arrow') or 'normal')} {cbool(o.get('edge_arrow_attr'))} "
+            f"{cbool(o.get('edge_label'))} {cbool(o.get('node_attr'))})")
 
 
 def _ctree(t):
@@ -229,7 +340,8 @@ def _ctree(t):
         kids = []
     sty = t[2] if len(t) > 2 else {}
     attrs = [f"({cstr('n' + k)}, VStr {cstr(v)})" for k, v in sorted(sty.get("ns", {}).items())] \
-        + [f"({cstr('e' + k)}, VStr {cstr(v)})" for k, v in sorted(sty.get("es", {}).items())]
+        + [f"({cstr('e' + k)}, VStr {cstr(v)})" for k, v in sorted(sty.get("es", {}).items())] \
+        + [f"({cstr('a' + k)}, {_cval(v)})" for k, v in sorted(sty.get("at", {}).items())]
     if attrs:
         return f"Na {cstr(t[0])} {clist(attrs)} {clist(_ctree(k) for k in kids)}"
     return f"Nd {cstr(t[0])} {clist(_ctree(k) for k in kids)}"
@@ -271,20 +383,25 @@ def emit(prop, case, obs):
     t = _ctree_top(case["tree"])
     if kind == "v":
         out = None if obs["out"] is None else clist(f"({cstr(p)}, {cstr(f)}, {cstr(n)})" for p, f, n in obs["out"])
-        return (f"CV {t} {_cpos(case['start'])} {int(case['max_depth'])} {_cvsel(case['style'])} "
-                f"{copt(out)} {clist(cstr(l) for l in obs['printed'])}")
+        printed = None if obs["printed"] is None else clist(cstr(l) for l in obs["printed"])
+        return (f"CV {t} {cbool(case['binary'])} {_cpos(case['start'])} {int(case['max_depth'])} "
+                f"{_cvsel(case['style'])} {_cpo(case.get('po'))} {copt(out)} {copt(printed)}")
     if kind == "h":
         out = None if obs["out"] is None else clist(cstr(l) for l in obs["out"])
         return (f"CH {t} {_cpos(case['start'])} {int(case['max_depth'])} {cbool(case['inter'])} "
                 f"{_chsel(case['style'])} {copt(out)}")
     if kind == "dot":
-        return (f"CD {t} {cstr(case['sep'])} {_cdotopts(case.get('dot'))} "
+        return (f"CD {t} {clist(_ctree(m) for m in case.get('more', []))} {cstr(case['sep'])} "
+                f"{_cdotopts(case.get('dot'))} "
                 f"{clist(cpair(cstr(a), cstr(b)) for a, b in obs['nodes'])} "
                 f"{clist(cpair(cstr(a), cstr(b)) for a, b in obs['edges'])} "
                 f"{clist(_cdict(d) for d in obs['vattrs'])} {clist(_cdict(d) for d in obs['eattrs'])}")
     if kind == "mermaid":
-        fl = clist(f"({cstr(a)}, {copt(b, cstr)}, {cstr(c)}, {cstr(d)})" for a, b, c, d in obs["flows"])
-        return f"CM {t} {clist(cstr(l) for l in obs['lines'])} {fl}"
+        fl = clist(f"({cstr(a)}, {copt(b, cstr)}, {cstr(c)}, {cstr(d)}, {copt(e, cstr)})"
+                   for a, b, c, d, e in obs["flows"])
+        pos = case["start"] if case["start_mode"] == "path" else []      # the object's own position is ignored
+        return (f"CM {t} {_cpos(pos)} {int(case['max_depth'])} {_cmopts(case.get('mm'))} "
+                f"{clist(cstr(l) for l in obs['lines'])} {fl}")
     raise ValueError(kind)
 
 
@@ -297,7 +414,7 @@ NAME_POOLS = {
     "affix": ["a", "xa", "ab", "b", "bc", "a", "abc", "b", "c", "xa", "abcd", "xab"],
     "lengths": ["a", "bbbb", "cc", "ddddddd", "e", "fff", "gggggg", "hh", "iiiii", "j", "kkkkkkkk", "ll"],
     "special": ["a b", "x.y", "(", "+", "a'", "0", "a1", "a", "10", "-", "|", "│", "└──", "été",
-                "名", "+-", "a--b", "1", "a0", "|--", "`--"],
+                "名", "+-", "a--b", "1", "a0", "|--", "`--", "[x]", "{z}", "#1", "(y)", "a|b", "<p>", "x;y", "%%"],
     "digits": ["a", "a1", "a", "a0", "b", "b1", "a", "b", "1", "a", "10", "a"],
 }
 SEPS = ["/", "\\", "-", ".", "|"]
@@ -438,10 +555,70 @@ NODE_STY = {"style": ["filled", "dashed", "bold"], "fillcolor": ["gold", "red"],
 EDGE_STY = {"label": ["first", "second", "edge label", "x"], "style": ["bold", "dashed"], "color": ["black", "red"]}
 
 
+ATTR_VALUES = {"age": [90, 65, 0, -3, 7], "x": ["q", "two words", "", "1"], "tag": [None, None, "t", 5]}
+SHAPES = ["rounded_edge", "stadium", "subroutine", "cylindrical", "circle", "asymmetric", "rhombus", "hexagon",
+          "parallelogram", "parallelogram_alt", "trapezoid", "trapezoid_alt", "double_circle"]
+ARROWS = ["normal", "bold", "dotted", "open", "bold_open", "dotted_open", "invisible", "circle", "cross",
+          "double_normal", "double_circle", "double_cross"]
+
+
+def _with_attrs(rng, tree, table, p):
+    """give every node, with probability p per key, scalar attributes drawn from table"""
+    def go(x):
+        at = {k: rng.choice(vs) for k, vs in table.items() if rng.random() < p}
+        kids = [None if k is None else go(k) for k in x[1]]
+        d = dict(x[2]) if len(x) > 2 else {}
+        if at:
+            d["at"] = at
+        return [x[0], kids, d] if d else [x[0], kids]
+    return go(tree)
+
+
+def _print_options(rng, case):
+    """print_tree's attribute options on nodes with differing attribute sets"""
+    case["tree"] = _with_attrs(rng, case["tree"], ATTR_VALUES, 0.55)
+    r = rng.random()
+    po = {}
+    if r < 0.3:
+        po["all_attrs"] = True
+        if rng.random() < 0.3:
+            po["attr_list"] = ["age"]             # overridden by all_attrs
+    else:
+        names = ["age", "x", "tag", "zz"]
+        rng.shuffle(names)
+        po["attr_list"] = names[: rng.randint(1, 4)]
+        if rng.random() < 0.5:
+            po["attr_omit_null"] = rng.random() < 0.8
+    if rng.random() < 0.35:
+        po["attr_bracket"] = rng.choice([["(", ")"], ["<<", ">>"], ["", ""], ["{", "}"]])
+    elif rng.random() < 0.05:
+        po["attr_bracket"] = rng.choice([["["], ["[", "]", "]"]])       # ValueError
+    case["po"] = po
+    case["stratum"] += "/attrs"
+
+
+def _mermaid_options(rng, case):
+    tbl = {"shape": SHAPES, "arrow": ARROWS, "lbl": ["L", "to x", "", "1"], "sty": ["fill:red", "stroke:blue", ""]}
+    case["tree"] = _with_attrs(rng, case["tree"], tbl, 0.45)
+    case["mm"] = {
+        "node_shape": rng.choice([None, None] + SHAPES), "edge_arrow": rng.choice([None, None] + ARROWS),
+        "node_shape_attr": rng.choice([None, "name", "callable"]),
+        "edge_arrow_attr": rng.choice([None, "name", "callable"]),
+        "edge_label": rng.random() < 0.6, "node_attr": rng.choice([None, "name", "callable"]),
+        "title": rng.choice([None, None, "T"]), "rankdir": rng.choice([None, "TB", "BT", "LR", "RL"]),
+        "line_shape": rng.choice([None, "basis", "linear", "step"]),
+        "node_colour": rng.choice([None, "yellow"]), "node_border_colour": rng.choice([None, "black"]),
+        "node_border_width": rng.choice([None, 1, 2]),
+    }
+    case["stratum"] += "/options"
+
+
 def _decorate(rng, case):
     """tree_to_dot options and heterogeneous per-node style dictionaries (differing key sets)"""
     o = {"node_colour": rng.choice([None, None, "gold", ""]), "node_shape": rng.choice([None, None, "circle"]),
          "edge_colour": rng.choice([None, None, "blue"]),
+         "directed": rng.choice([None, None, True, False]), "rankdir": rng.choice([None, None, "LR", "BT"]),
+         "bg_colour": rng.choice([None, None, "white"]),
          "node_attr": rng.choice([None, None, "name", "callable"]),
          "edge_attr": rng.choice([None, "name", "name", "callable"])}
     case["dot"] = o
@@ -451,7 +628,7 @@ def _decorate(rng, case):
         return {k: rng.choice(vs) for k, vs in table.items() if rng.random() < p}
 
     def go(x):
-        d = {}
+        d = dict(x[2]) if len(x) > 2 else {}
         r = rng.random()
         if r < 0.5:
             d["es"] = pick(EDGE_STY, 0.45)
@@ -496,8 +673,42 @@ def gen_case(rng, kind=None):
             mine = pn[tuple(case["start"])]
             if sum(1 for v in pn.values() if v.endswith(mine)) == 1:
                 case["start_mode"] = "path"
+    if kind == "dot" and rng.random() < 0.2 and not case["start"]:
+        # several trees in one graph; labels kept apart (equal labels in different trees collide: see K6)
+        case["more"] = []
+        for mark in "\u00b2\u00b3"[: rng.randint(1, 2)]:
+            extra = _name_tree(rng, _shape(rng, rng.choice(["mixed", "star", "path"])), pool, False)
+
+            def mark_all(x, m=mark):
+                return [x[0] + m, [mark_all(k) for k in x[1]]]
+            case["more"].append(mark_all(extra))
+        case["stratum"] += "/list"
     if kind == "dot" and rng.random() < 0.6:
         _decorate(rng, case)
+        if "more" in case:
+            fake = {"tree": ["_", case["more"]], "stratum": ""}
+            saved = case["dot"]
+            _decorate(rng, fake)
+            case["dot"] = saved
+            case["more"] = [k for k in fake["tree"][1]]
+    if kind == "mermaid":
+        if rng.random() < 0.35 and not binary and not any("/" in nm for nm in names):
+            pn = path_names(tree, "/")
+            mine = pn[tuple(case["start"])]
+            sub = subtree(tree, case["start"])
+            if sum(1 for v in pn.values() if v.endswith(mine)) == 1 and tsize(sub) >= 2:
+                case["start_mode"] = "path"
+                if rng.random() < 0.4:
+                    md = rng.randint(2, 4)
+                    case["max_depth"] = md
+        if case["start_mode"] != "path" and rng.random() < 0.15 and tsize(tree) >= 2:
+            case["max_depth"] = rng.randint(2, 4)
+        if rng.random() < 0.6:
+            _mermaid_options(rng, case)
+    if kind in ("v", "h", "mermaid") and rng.random() < 0.3:
+        case["explicit_defaults"] = True          # pass max_depth=0 / intermediate_node_name=True explicitly
+    if kind == "v" and rng.random() < 0.35:
+        _print_options(rng, case)
     if kind == "v":
         r = rng.random()
         if r < 0.55:
@@ -582,6 +793,13 @@ TWO_SINGLE = ["r", [["aaa", [["p", []], ["q", []]]], ["b", [["c", [["d", []]]], 
 BANDS = ["r", [["aaaaaa", [["b", [["cccc", []]]]]], ["d", [["eeeeeeee", []], ["f", [["g", []]]]]]]]
 DEEP4 = ["r", [["a", [["b", [["c", [["d", []], ["e", []]]], ["f", []]]], ["g", []]]], ["h", [["i", [["j", []]]]]]]]
 BIN = ["a", [None, ["b", [["c", []], None]]]]
+ATTRS = ["a", [["b", [["d", [], {"at": {"x": ""}}]], {"at": {"age": 65, "tag": None}}], ["c", [], {"at": {"tag": "t", "x": "two words"}}]],
+         {"at": {"age": -3}}]
+ATTRS_BIN = ["1", [None, ["b", [], {"at": {"age": 0}}]], {"at": {"age": 90, "tag": None}}]
+MM = ["a", [["b", [["d", [], {"at": {"lbl": "x"}}], ["e", [["f", []]], {"at": {"shape": "circle", "sty": "fill:blue"}}]],
+             {"at": {"lbl": "to b", "arrow": "bold"}}],
+            ["c", [], {"at": {"sty": "fill:blue", "shape": "hexagon", "arrow": "cross"}}]],
+      {"at": {"shape": "rhombus", "lbl": "L0", "sty": "fill:red"}}]
 # only some links carry a label / a style; repeated names; one node with its own node style
 STYLED = ["a", [["b", [["d", []], ["e", [["b", []]], {"es": {"label": "second", "style": "dashed"}}]],
                  {"es": {"label": "first"}, "ns": {"shape": "diamond"}}],
@@ -598,8 +816,21 @@ K4_WITNESS = ["x", []]
 K5_WITNESS = ["a:b", [["c", []], ["a:c", []]]]
 
 
+def _finding_ids():
+    try:
+        path = os.path.join(os.path.dirname(os.path.dirname(os.path.dirname(os.path.abspath(__file__)))),
+                            "known_findings.json")
+        return {e.get("id") for e in json.load(open(path)).get("entries", []) if e.get("status") == "finding"}
+    except Exception:
+        return set()
+
+
 def corpus(prop):
-    out = [("K2-dot-id-collision", _mk("dot", K2_WITNESS)),
+    out = []
+    if "K6-C18" in _finding_ids():
+        # equal labels in two trees of one tree_to_dot([...]) call: a0 twice
+        out.append(("K6-dot-list-collision", _mk("dot", ["a", [["b", []]]], more=[["a", [["c", []]]]])))
+    out += [("K2-dot-id-collision", _mk("dot", K2_WITNESS)),
            ("K4-mermaid-one-node", _mk("mermaid", K4_WITNESS)),
            ("K5-dot-colon-port", _mk("dot", K5_WITNESS))]
     for nm, t in (("fixture", FIXTURE), ("closed-stems", CLOSED), ("fan3", FAN3), ("two-single", TWO_SINGLE),
@@ -620,6 +851,21 @@ def corpus(prop):
             for ec in (None, "blue"):
                 out.append(("styled-edges", _mk("dot", STYLED, dot={
                     "node_colour": None, "node_shape": None, "edge_colour": ec, "node_attr": na, "edge_attr": ea})))
+    out.append(("dot-list", _mk("dot", FIXTURE, more=[["p", [["q", []], ["b2", []]]], ["z", []]],
+                                dot={"directed": False, "rankdir": "LR", "bg_colour": "white", "edge_attr": "name"})))
+    for po in ({"all_attrs": True}, {"attr_list": ["age", "tag", "zz"]},
+               {"attr_list": ["tag", "age"], "attr_omit_null": True, "attr_bracket": ["<", ">"]},
+               {"attr_list": ["x"], "attr_bracket": ["["]}):
+        out.append(("print-attrs", _mk("v", ATTRS, po=po)))
+        out.append(("print-attrs", _mk("v", ATTRS_BIN, binary=True, po=po)))
+    for mm in ({"node_shape_attr": "name", "edge_arrow_attr": "name", "edge_label": True, "node_attr": "name",
+                "title": "T", "rankdir": "LR", "node_colour": "yellow", "node_border_colour": "black",
+                "node_border_width": 2, "line_shape": "linear"},
+               {"node_shape": "hexagon", "edge_arrow": "dotted", "node_shape_attr": "callable",
+                "edge_arrow_attr": "callable", "node_attr": "callable", "edge_label": True},
+               {"edge_label": True}):
+        out.append(("mermaid-options", _mk("mermaid", MM, mm=mm)))
+        out.append(("mermaid-options", _mk("mermaid", MM, mm=mm, start=[0], start_mode="path", max_depth=2)))
     out.append(("styled-defaults", _mk("dot", STYLED, dot={
         "node_colour": "gold", "node_shape": "circle", "edge_colour": "blue", "node_attr": "name", "edge_attr": None})))
     out.append(("single", _mk("v", ["a", []])))
@@ -659,6 +905,29 @@ def k5_predicate(tree):
     return any(not x[0].startswith('"') and x[0].find(":") > 0 for _, x in tnodes(tree))
 
 
+def _drawn(case):
+    """the tree a v / h / mermaid call has to draw"""
+    t = case["tree"]
+    if case["kind"] != "mermaid" or case["start_mode"] == "path":
+        t = subtree(t, case["start"])
+    if case["max_depth"]:
+        t = cut(t, case["max_depth"])
+    return t
+
+
+def k6_predicate(case):
+    """Input predicate of K6 (candidate): tree_to_dot is given a LIST of trees and two of them contain an equal
+    label at all — name_dict is created anew for every tree, so both get index 0 and hence the same id."""
+    trees = [case["tree"]] + list(case.get("more", []))
+    seen = set()
+    for t in trees:
+        labels = {x[0] for _, x in tnodes(t)}
+        if labels & seen:
+            return True
+        seen |= labels
+    return False
+
+
 def matches_finding(prop, entry, case, obs, flags):
     if isinstance(obs, dict) and "_harness_error" in obs:
         return False
@@ -670,7 +939,9 @@ def matches_finding(prop, entry, case, obs, flags):
     if fid == "K2-C18":
         return case.get("kind") == "dot" and k2_predicate(case["tree"])
     if fid == "K4-C18":
-        return case.get("kind") == "mermaid" and tsize(case["tree"]) == 1
+        return case.get("kind") == "mermaid" and tsize(_drawn(case)) == 1
+    if fid == "K6-C18":
+        return case.get("kind") == "dot" and k6_predicate(case)
     if fid == "K5-C18":
         return case.get("kind") == "dot" and k5_predicate(case["tree"])
     return False
@@ -709,6 +980,17 @@ def shrink_candidates(prop, case):
         c = dict(case); c["start"] = []; c["start_mode"] = "object"; yield c
     if case["max_depth"]:
         c = dict(case); c["max_depth"] = 0; yield c
+    for opt in ("po", "mm", "explicit_defaults"):
+        if case.get(opt):
+            c = dict(case); c.pop(opt); yield c
+            if isinstance(case[opt], dict):
+                for key, val in case[opt].items():
+                    if val not in (None, False):
+                        c = dict(case); c[opt] = dict(case[opt]); c[opt].pop(key); yield c
+    if case.get("more"):
+        c = dict(case); c.pop("more"); yield c
+        for i in range(len(case["more"])):
+            c = dict(case); c["more"] = case["more"][:i] + case["more"][i + 1:]; yield c
     if case.get("dot"):
         c = dict(case); c.pop("dot"); yield c
         for key, val in case["dot"].items():
@@ -719,7 +1001,7 @@ def shrink_candidates(prop, case):
             """trees with one node's style dictionaries (or one entry of them) removed"""
             if len(x) > 2:
                 yield [x[0], x[1]]
-                for which in ("ns", "es"):
+                for which in ("ns", "es", "at"):
                     for k in sorted(x[2].get(which, {})):
                         d = {w: dict(v) for w, v in x[2].items()}
                         del d[which][k]
@@ -756,29 +1038,34 @@ def size(case):
 def nontrivial(prop, case, obs):
     if obs.get("out", 1) is None:
         return False
-    t = subtree(case["tree"], case["start"]) if case["kind"] in ("v", "h") else case["tree"]
-    if case["kind"] in ("v", "h") and case["max_depth"]:
-        t = cut(t, case["max_depth"])
+    t = _drawn(case) if case["kind"] in ("v", "h", "mermaid") else case["tree"]
     return tsize(t) >= 3
 
 
 def sample(prop, case, obs):
     return {"case": {k: case.get(k) for k in ("kind", "binary", "tree", "start", "start_mode", "max_depth", "style",
-                                              "inter", "dot")},
+                                              "inter", "dot", "po", "mm", "more", "explicit_defaults")},
             "observed": obs}
 
 
 def rule(prop):
-    return ("one call of yield_tree+print_tree / hyield_tree / tree_to_dot / tree_to_mermaid per case on a random "
-            "tree (<= 12 nodes; shapes wide/deep/mixed/path/star/binary with empty slots; name pools distinct, "
-            "repeated across branches, affix-related, varied lengths, special characters incl. box-drawing glyphs, "
-            "labels ending in digits; for dot/mermaid additionally 45% trees whose branches carry repeated leaf/inner "
-            "names below ancestor names that are different cuts of one word (ab/c, a/bc, abc, depth 3-5)), all 6 built-in styles as name and as style object, custom icon lists/tuples/"
-            "BasePrintStyle objects, malformed icon lists, start at an inner node (object or unambiguous path), "
-            "max_depth, intermediate_node_name on/off; thorough tier adds every ordered tree with <= 6 nodes; "
-            "non-trivial = the drawn tree has >= 3 nodes and the call returned; distinct by canonical JSON hash. "
-            "Only as corpus witnesses of known findings, not generated: mermaid for a one-node tree (K4), names "
-            "containing ':' for dot (K5). Not generated: names with blanks at either end, equal sibling names")
+    return ("one call per case, made twice on the same objects (result must repeat, input tree must be unchanged: "
+            "structure, classes, public attributes of every node): yield_tree + print_tree (+ Node.show when started "
+            "on the node object) / hyield_tree + hprint_tree (+ Node.hshow) / tree_to_dot / tree_to_mermaid on a random "
+            "tree (<= 14 nodes; shapes wide/deep/mixed/path/star/binary with empty slots; name pools distinct, repeated "
+            "across branches, affix-related, varied lengths, special characters incl. box-drawing glyphs and []{}()#|<>;%, "
+            "labels ending in digits; for dot/mermaid 45% trees with repeated names below ancestor names that are "
+            "different cuts of one word). Options: all 6 built-in styles as name and as style object, custom icon "
+            "lists/tuples/Base*PrintStyle objects, malformed icon lists; start at an inner node as object or as "
+            "unambiguous path, max_depth, both together, defaults omitted or passed explicitly; intermediate_node_name; "
+            "print_tree all_attrs / attr_list / attr_omit_null / attr_bracket (incl. wrong length) on nodes with "
+            "differing str/int/None attributes; dot: node_colour/node_shape/edge_colour (incl. ''), node_attr/edge_attr "
+            "as attribute name or callable over dict attributes with differing key sets, directed, rankdir, bg_colour, a "
+            "list of 2-3 trees (20%); mermaid: node_shape(+_attr), edge_arrow(+_attr), edge_label, node_attr as name or "
+            "callable, title, rankdir, line_shape, colours, node_name_or_path and max_depth through **kwargs. Thorough "
+            "tier adds every ordered tree with <= 8 nodes (quick: <= 6). Non-trivial = the drawn tree has >= 3 nodes and "
+            "the call returned; distinct by canonical JSON hash. Only as corpus witnesses of known findings: mermaid for a "
+            "one-node tree (K4), ':' in names for dot (K5), equal labels in two trees of one dot call (K6, if listed).")
 
 
 def explain(prop, case, obs, flags):
@@ -801,5 +1088,14 @@ def partial_clauses(prop):
             "cell, prefix widths, prefix column); the boolean forms h_leaf_order / h_geometry that first cut the text "
             "into bands are evaluated on outputs only",
             "C18_dot_ids_injective only under the guards 'no label ends in a decimal digit' (K2), 'path names "
-            "pairwise different', 'no label contains a colon' (K5)",
-            "C18_mermaid_graph only for trees with >= 2 nodes (K4)"]
+            "pairwise different', 'no label contains a colon' (K5); several trees in one tree_to_dot call only with "
+            "disjoint label sets (name_dict is per tree: equal labels collide)",
+            "C18_mermaid_graph only for trees with >= 2 nodes (K4)",
+            "accepted blind spots of the correspondence: print_tree lines with attribute suffixes, mermaid node shapes, "
+            "arrows and style classes are compared with the model only (no independent predicate; the text decoder is "
+            "skipped when suffixes are printed); the mermaid header (title, line_shape, rankdir beyond the flowchart "
+            "line) and classDef lines, dot's rankdir/bgcolor graph attributes and the serialised dot text (pydot's "
+            "quoting) are not observed; exceptions only as raised / not raised; not generated: names with a double "
+            "quote (mermaid writes labels unescaped), a newline, or blanks at either end, equal sibling names, float / "
+            "NaN attribute values, BinaryNode names that are non-canonical integer literals (val), unknown style / "
+            "shape / arrow / rankdir names, BaseNode or user subclasses, tree_to_pillow and image output"]
